@@ -5,5 +5,7 @@ CONSTANTS
   Ops = {"XOR", "XNOR", "AND", "OR", "INV"}
   FreeS = FALSE
   MaxFaults = 0
+  Deviating = FALSE
+  RangeRule = "exact"
 CONSTRAINT Emit
 CHECK_DEADLOCK FALSE
